@@ -44,15 +44,20 @@ def build(repo=REPO, overflow_checks=True):
             '-Zunpretty=mir', '-C', 'overflow-checks=' + tag, '-C', 'debug-assertions=' + tag, '--cap-lints', 'allow']
     t0 = time.time()
     if not os.path.exists(mir):
-        _run(base + ['-o', mir + '.tmp'], repo)
-        os.rename(mir + '.tmp', mir)
+        tmp = '%s.%d.tmp' % (mir, os.getpid())
+        _run(base + ['-o', tmp], repo)
+        os.rename(tmp, mir)
     if not os.path.exists(vmir):
-        _run(base + ['-Zverbose-internals', '-o', vmir + '.tmp'], repo)
-        os.rename(vmir + '.tmp', vmir)
+        tmp = '%s.%d.tmp' % (vmir, os.getpid())
+        _run(base + ['-Zverbose-internals', '-o', tmp], repo)
+        os.rename(tmp, vmir)
     if not os.path.exists(doc):
         _run(['rustdoc', '+nightly', '--edition', '2021', '--crate-type', 'lib', '--crate-name', 'evalexpr', 'src/lib.rs',
               '-Zunstable-options', '--output-format', 'json', '--document-private-items', '--cap-lints', 'allow',
-              '-o', os.path.join(d, 'doc')], repo)
+              '-o', os.path.join(d, 'doc.%d' % os.getpid())], repo)
+        if not os.path.exists(doc):
+            os.makedirs(os.path.join(d, 'doc'), exist_ok=True)
+            os.rename(os.path.join(d, 'doc.%d' % os.getpid(), 'evalexpr.json'), doc)
     return dict(dir=d, mir=mir, vmir=vmir, doc=doc, hash=h, seconds=time.time() - t0, overflow_checks=overflow_checks)
 
 
